@@ -256,7 +256,16 @@ func Listen(network, address string) (Listener, error) {
 	return h.listenTCP(ip, port)
 }
 
+// envPoint is a scheduling point in front of an operation that reads or changes the host's shared tables (bind,
+// unbind, connect): another thread must be able to run between, say, the port manager's bookkeeping and the bind.
+func envPoint() {
+	if vs.Me() != nil {
+		vs.Yield()
+	}
+}
+
 func (h *Host) listenTCP(ip IP, port int) (*TCPListener, error) {
+	envPoint()
 	if port == 0 {
 		for {
 			port = h.nextEph
@@ -304,6 +313,7 @@ func (l *TCPListener) Accept() (Conn, error) {
 }
 
 func (l *TCPListener) Close() error {
+	envPoint()
 	if l.closed {
 		return &net.OpError{Op: "close", Net: "tcp", Addr: l.addr, Err: net.ErrClosed}
 	}
@@ -372,6 +382,7 @@ func refused(network string, a net.Addr) error {
 
 // DialFrom connects to a virtual listener using the given source address ("" = next ephemeral source).
 func (h *Host) DialFrom(src string, address string) (*StreamConn, error) {
+	envPoint()
 	ip, port, err := parseHostPort(address)
 	if err != nil {
 		return nil, &net.OpError{Op: "dial", Net: "tcp", Err: err}
